@@ -22,5 +22,5 @@ def run(ctx):
                   ("finding_stale_state", "Inv_C23"),
                   ("finding_dir_conflict", "Inv_C23"), ("finding_tracked_dir", "Inv_C23"),
                   ("finding_stale_ignored", "Inv_C23"), ("finding_notdir", "Inv_C23")],
-        gen_cfgs=[("gen_c23", ctx.q(250, 800)), ("gen_c23_ignored", ctx.q(120, 400))],
-        n_random=ctx.q(300, 2000), focus="snapshot")
+        gen_cfgs=[("gen_c23", ctx.q(250, 600)), ("gen_c23_ignored", ctx.q(120, 300))],
+        n_random=ctx.q(300, 1500), focus="snapshot")
